@@ -42,6 +42,8 @@ CheckSimplify(e) ==
   ELSE IF e.err # "" THEN "ok"                              \* an error is an allowed outcome
   ELSE IF ~e.valid THEN "simplify-result-invalid"
   ELSE IF Len(e.kept) = 0 THEN "ok"                          \* collapsed: the documented empty result
+  \* validity by the specification's own count (not only by the library's Validate): two distinct XY positions
+  ELSE IF Cardinality({e.kept[i] : i \in 1..Len(e.kept)}) < 2 THEN "simplify-result-invalid"
   ELSE IF ~SimplifyOK(e.line, e.kept, e.tn, e.td) THEN "simplify-contract"
   ELSE "ok"
 
@@ -62,6 +64,8 @@ CheckSimplifyPoly(e) ==
   ELSE IF e.err # "" THEN "ok"
   ELSE IF ~e.valid THEN "simplify-result-invalid"
   ELSE IF Len(e.keptrings) = 0 THEN (IF Len(e.rings) = 0 \/ CollapseOK(e.rings[1], e.tn, e.td) THEN "ok" ELSE "simplify-polygon-vanished")
+  ELSE IF \E i \in 1..Len(e.keptrings) : Len(e.keptrings[i]) < 4 \/ e.keptrings[i][1] # e.keptrings[i][Len(e.keptrings[i])]
+                                          \/ Cardinality({e.keptrings[i][k] : k \in 1..Len(e.keptrings[i])}) < 3 THEN "simplify-result-invalid"
   ELSE IF ~RingsMatch(e.rings, e.keptrings, 1, 1, e.tn, e.td) THEN "simplify-polygon-contract"
   ELSE "ok"
 
